@@ -73,7 +73,7 @@ Definition minw (v : N) : width :=
 
 Definition str_tree (O : eopts) (text : bool) (s : list N) : wtree :=
   if eo_indef O then
-    let cs := map (fun c => (minw (N.of_nat (length c)), c)) (chunks (length s) (chunk_len (length s)) s) in
+    let cs := map (fun c => (minw (N.of_nat (length c)), c)) (chunks text (length s) (chunk_len (length s)) s) in
     if text then TTextI cs else TBytesI cs
   else if text then TText (minw (N.of_nat (length s))) s else TBytes (minw (N.of_nat (length s))) s.
 
